@@ -24,3 +24,29 @@ Print Assumptions C05_offsets_file.
 Theorem C05_offsets_par : S_par_comp_eq_seq.
 Proof. exact par_comp_eq_seq. Qed.
 Print Assumptions C05_offsets_par.
+
+(* ---- links ---- *)
+(** C12 o C05 o C03: a loader given only the three files — the properties text, the .graph
+    stream and the .offsets file — reads the offsets table the encoder's positions define
+    (n taken from the text), reaches every node's list by random access through it, and
+    finds the last offset in the text's [length] key *)
+From WG Require Import BV.Access BV.AccessStatements Flags.Props
+  Links.LoadLinkStatements Links.LoadLinkFacts.
+Theorem C05_link_load_files : S_link_load_files.
+Proof. exact link_load_files. Qed.
+Print Assumptions C05_link_load_files.
+
+(** non-vacuity: the offsets file of a concrete compressed graph is read back, node 3 is
+    reached through it, and the text's length is the last offset *)
+Example C05_link_nonvacuous :
+  let f := mkFlags (mkCodes Gamma Unary Gamma Gamma (Zeta 3)) 3 2 2 in
+  let p := params_of_flags f in let cs := fl_codes f in
+  let g := [[1;2;3;4;5;9]; [1;2;3;4;5;10]; []; [0;1;2;3;4;5;6;7;20]] in
+  let sel := greedy_sel p cs 0 g in
+  let recs := encode_graph p 0 g sel in
+  let st := mkStats 4 21 (nlen (graph_bits true cs recs)) in
+  exists text, to_props true st f = Some text
+    /\ load_ra_files true text (offsets_bits (node_bitlens true cs recs) ++ [true])
+         (enc_stream true cs p g sel [false; true]) 4 3 = Some [0;1;2;3;4;5;6;7;20]
+    /\ props_length text = Some (last (enc_offs true cs p g sel) 0).
+Proof. cbv zeta. eexists. split; [vm_compute; reflexivity|]. split; vm_compute; reflexivity. Qed.
